@@ -301,6 +301,10 @@ def run(ctx):
         mode = ctx.rng.choice(["sync", "sync", "peer", "peer", "racy", "duplex"])
         check(ctx, requestor, mode, pending)
     flush(ctx, pending)
+    # whole associations: the layer above must not issue a request where PS3.8 leaves it undefined
+    from harness.props import c05_e2e
+
+    c05_e2e.run(ctx, ctx.n(1, 5))
 
 
 WITNESSES = [
@@ -315,6 +319,10 @@ WITNESSES = [
 
 def replay(ctx, case):
     c = case["case"]
+    if c[0] == "e2e-refusal":
+        from harness.props import c05_e2e
+
+        return c05_e2e.replay(ctx, c)
     eff, obs, errors = interpret(bool(c[1]), c[2])
     rep = ctx.lean([["dul.run", bool(c[1]), to_sexp_sched(eff)]])[0]
     for st, ro, mo in zip(eff, obs, rep):
